@@ -6,6 +6,7 @@ package main
 
 import (
 	"fmt"
+	"sort"
 	"strings"
 	"time"
 
@@ -19,32 +20,81 @@ type shape struct {
 	crit  []bool
 	modes []string
 	hosts []string // host constraint per task
+	// group: aggregator role the task role is nested in ("" = directly below the root); omit: the role does
+	// not state the `critical` trait at all (documented default: critical). Both nil for the flat shapes.
+	group []string
+	omit  []bool
 }
 
 var shapes = []shape{
-	{"c", []bool{true}, []string{"direct"}, []string{"hostA"}},
-	{"n", []bool{false}, []string{"direct"}, []string{"hostA"}},
-	{"cc", []bool{true, true}, []string{"direct", "fairmq"}, []string{"hostA", "hostB"}},
-	{"cn", []bool{true, false}, []string{"direct", "direct"}, []string{"hostA", "hostA"}},
-	{"nn", []bool{false, false}, []string{"direct", "basic"}, []string{"hostA", "hostB"}},
-	{"ccn", []bool{true, true, false}, []string{"direct", "direct", "fairmq"}, []string{"hostA", "hostB", "hostA"}},
-	{"cnn", []bool{true, false, false}, []string{"fairmq", "direct", "direct"}, []string{"hostA", "hostA", "hostB"}},
+	{"c", []bool{true}, []string{"direct"}, []string{"hostA"}, nil, nil},
+	{"n", []bool{false}, []string{"direct"}, []string{"hostA"}, nil, nil},
+	{"cc", []bool{true, true}, []string{"direct", "fairmq"}, []string{"hostA", "hostB"}, nil, nil},
+	{"cn", []bool{true, false}, []string{"direct", "direct"}, []string{"hostA", "hostA"}, nil, nil},
+	{"nn", []bool{false, false}, []string{"direct", "basic"}, []string{"hostA", "hostB"}, nil, nil},
+	{"ccn", []bool{true, true, false}, []string{"direct", "direct", "fairmq"}, []string{"hostA", "hostB", "hostA"}, nil, nil},
+	{"cnn", []bool{true, false, false}, []string{"fairmq", "direct", "direct"}, []string{"hostA", "hostA", "hostB"}, nil, nil},
+	// the non-critical task first (every list the core builds starts with it)
+	{"nc", []bool{false, true}, []string{"fairmq", "direct"}, []string{"hostB", "hostA"}, nil, nil},
+	// `critical` not stated: the documented default is critical
+	{"d", []bool{true}, []string{"direct"}, []string{"hostA"}, nil, []bool{true}},
+	{"nd", []bool{false, true}, []string{"direct", "fairmq"}, []string{"hostA", "hostA"}, nil, []bool{false, true}},
+	// task roles below aggregator roles (root -> g -> {n, c}; root -> g -> c, root -> h -> n)
+	{"gnc", []bool{false, true}, []string{"direct", "direct"}, []string{"hostA", "hostB"}, []string{"g", "g"}, nil},
+	{"gchn", []bool{true, false}, []string{"fairmq", "direct"}, []string{"hostA", "hostA"}, []string{"g", "h"}, nil},
 }
 
-var msgOutcomes = []coresim.Outcome{coresim.OK, coresim.ErrSource, coresim.ErrError, coresim.Undeliverable, coresim.Silent, coresim.Dies}
-var launchOutcomes = []coresim.Outcome{coresim.OK, coresim.NeverRunning, coresim.LaunchFails}
+// noOffer is a launch outcome of this harness only: the task's host constraint names a machine no agent
+// offers (the constraint is templated, the request's user variables move it to hostZ).
+const noOffer = coresim.Outcome(100)
+
+func oname(o coresim.Outcome) string {
+	if o == noOffer {
+		return "no-offer"
+	}
+	return o.String()
+}
+
+// okClass: outcomes with which the task does get to the destination in time (slow, but within the deployment /
+// response timeout); every other outcome is a failure of that task.
+func okClass(o coresim.Outcome) bool {
+	return o == coresim.OK || o == coresim.SlowLaunch || o == coresim.SlowReply
+}
+
+var msgOutcomes = []coresim.Outcome{coresim.OK, coresim.ErrSource, coresim.ErrError, coresim.Undeliverable, coresim.Silent, coresim.Dies, coresim.SlowReply, coresim.LateReply}
+var launchOutcomes = []coresim.Outcome{coresim.OK, coresim.NeverRunning, coresim.LaunchFails, coresim.SlowLaunch, coresim.LateLaunch, noOffer}
+
+// the three-task shapes of the quick tier leave out the slow / late outcomes (every pair of outcomes is already
+// combined in the two-task shapes); their "-full" twins of the thorough tier have the whole alphabet
+var msgOutcomesSmall = []coresim.Outcome{coresim.OK, coresim.ErrSource, coresim.ErrError, coresim.Undeliverable, coresim.Silent, coresim.Dies}
+var launchOutcomesSmall = []coresim.Outcome{coresim.OK, coresim.NeverRunning, coresim.LaunchFails, noOffer}
 
 var dest = map[string]string{"DEPLOY": "CONFIGURED" /* create runs DEPLOY+CONFIGURE */, "CONFIGURE": "CONFIGURED", "START": "RUNNING", "STOP": "CONFIGURED", "RESET": "DEPLOYED", "CONFIGURE2": "CONFIGURED"}
 var eventOf = map[string]string{"DEPLOY": "launch", "CONFIGURE": "CONFIGURE", "START": "START", "STOP": "STOP", "RESET": "RESET", "CONFIGURE2": "CONFIGURE"}
 var opOf = map[string]pb.ControlEnvironmentRequest_Optype{"START": pb.ControlEnvironmentRequest_START_ACTIVITY, "STOP": pb.ControlEnvironmentRequest_STOP_ACTIVITY,
 	"RESET": pb.ControlEnvironmentRequest_RESET, "CONFIGURE2": pb.ControlEnvironmentRequest_CONFIGURE}
 
-func wfName(s shape) string { return "c02-" + s.name }
+// state of a task's own state machine once the environment's transition got it "there"
+var taskDest = map[string]string{"DEPLOY": "CONFIGURED", "CONFIGURE": "CONFIGURED", "START": "RUNNING", "STOP": "CONFIGURED", "RESET": "STANDBY", "CONFIGURE2": "CONFIGURED"}
+
+func wfName(s shape) string           { return "c02-" + s.name }
+func className(s shape, i int) string { return fmt.Sprintf("c02%s%d", s.name, i) }
+func hostVar(i int) string            { return fmt.Sprintf("c02host%d", i) }
 
 func specOf(s shape) coresim.WorkflowSpec {
-	wf := coresim.WorkflowSpec{Name: wfName(s), Hosts: []string{"hostA"}}
+	wf := coresim.WorkflowSpec{Name: wfName(s), Hosts: []string{"hostA"}, Vars: map[string]string{}}
 	for i := range s.crit {
-		wf.Tasks = append(wf.Tasks, coresim.TaskSpec{Name: fmt.Sprintf("t%d", i), Class: fmt.Sprintf("c02%s%d", s.name, i), Mode: s.modes[i], Critical: s.crit[i], Host: s.hosts[i]})
+		// the host constraint is a template over a workflow default, so that one request can move one task
+		// to a machine nobody offers (launch outcome no-offer)
+		wf.Vars[hostVar(i)] = s.hosts[i]
+		ts := coresim.TaskSpec{Name: fmt.Sprintf("t%d", i), Class: className(s, i), Mode: s.modes[i], Critical: s.crit[i], Host: "{{ " + hostVar(i) + " }}"}
+		if s.group != nil {
+			ts.Group = s.group[i]
+		}
+		if s.omit != nil {
+			ts.OmitCritical = s.omit[i]
+		}
+		wf.Tasks = append(wf.Tasks, ts)
 	}
 	return wf
 }
@@ -56,7 +106,33 @@ func agents() []*coresim.Agent {
 	}
 }
 
-func scenario(s shape, target string, q, t vrt.Bounds) *vrt.Scenario {
+// taskIndex maps a simulated task back to its position in the shape.
+func taskIndex(s shape, t *coresim.SimTask) int {
+	for i := range s.crit {
+		if t.Class == className(s, i) {
+			return i
+		}
+	}
+	return -1
+}
+
+// notThere lists the critical tasks of environment env that the master holds alive and whose own state machine
+// is not in want (the simulated executors keep it), plus those that never were commanded.
+func notThere(s shape, m *coresim.Master, env, want string) (out []string) {
+	for _, id := range m.TaskOrder {
+		t := m.Tasks[id]
+		i := taskIndex(s, t)
+		if i < 0 || !s.crit[i] || !t.Alive || (env != "" && t.EnvID != env) {
+			continue
+		}
+		if t.State != want {
+			out = append(out, fmt.Sprintf("t%d:%s", i, t.State))
+		}
+	}
+	return
+}
+
+func scenario(s shape, target string, full bool, q, t vrt.Bounds) *vrt.Scenario {
 	var (
 		assign  []coresim.Outcome
 		w       *coresim.World
@@ -70,13 +146,27 @@ func scenario(s shape, target string, q, t vrt.Bounds) *vrt.Scenario {
 		// the creation failed with a deployment timeout although the simulator reported every task
 		// TASK_RUNNING right after the launch (no launch fault in force): one defect, one signature
 		deployRace string
+		// states GetEnvironment reported while the targeted request was in progress and while things settled
+		// afterwards (a client polling at every idle moment of the system)
+		seen       map[string]bool
+		polling    bool
+		stragglers []string // critical tasks not at the transition's destination although it succeeded
+		leftover   []string // environments listed in another state than ERROR/DONE after a failed creation
+		unlaunched []string // critical tasks with a matching agent that were never launched
 	)
 	seq := []string{"DEPLOY", "CONFIGURE", "START", "STOP", "RESET", "CONFIGURE2"}
 	body := func() {
 		assign, reached, setupOK, gotErr, gotSt, finalSt, deployRace = nil, false, true, nil, "", "", ""
+		seen, polling, stragglers, leftover, unlaunched = map[string]bool{}, false, nil, nil, nil
 		alpha := msgOutcomes
 		if target == "DEPLOY" {
 			alpha = launchOutcomes
+		}
+		if !full {
+			alpha = msgOutcomesSmall
+			if target == "DEPLOY" {
+				alpha = launchOutcomesSmall
+			}
 		}
 		for range s.crit {
 			assign = append(assign, alpha[vrt.ChooseFree(len(alpha), "outcome")])
@@ -85,16 +175,40 @@ func scenario(s shape, target string, q, t vrt.Bounds) *vrt.Scenario {
 		m := coresim.NewMaster(agents()...)
 		m.Behaviour = func(t *coresim.SimTask, kind string) coresim.Outcome {
 			if phase == target && kind == eventOf[target] {
-				for i := range s.crit {
-					if t.Class == fmt.Sprintf("c02%s%d", s.name, i) {
-						return assign[i]
-					}
+				if i := taskIndex(s, t); i >= 0 && assign[i] != noOffer {
+					return assign[i]
 				}
 			}
 			return coresim.OK
 		}
+		for _, a := range assign {
+			if a == noOffer {
+				// the offers arrive a moment after the REVIVE call, as over a network: the task manager is then
+				// waiting for the verdict of the offer round (with offers inside the call, a round that launches
+				// nothing is over before the manager listens, and only the deployment timeout ends the request)
+				m.OfferDelay = 10 * time.Millisecond
+			}
+		}
 		w = coresim.NewWorld(m)
 		id := ""
+		vrt.OnIdle(func() {
+			if polling && id != "" {
+				if st, _ := w.EnvState(id); st != "" {
+					seen[st] = true
+				}
+			}
+		})
+		late := false
+		var vars map[string]string
+		for i, a := range assign {
+			late = late || a == coresim.LateReply || a == coresim.LateLaunch
+			if a == noOffer {
+				if vars == nil {
+					vars = map[string]string{}
+				}
+				vars[hostVar(i)] = "hostZ"
+			}
+		}
 		for _, ph := range seq {
 			if ph == "CONFIGURE" && target != "CONFIGURE" {
 				continue // part of create
@@ -111,26 +225,52 @@ func scenario(s shape, target string, q, t vrt.Bounds) *vrt.Scenario {
 				if ph == "CONFIGURE" {
 					continue
 				}
-				id, st, err = w.Create(wfName(s), nil)
+				id, st, err = w.Create(wfName(s), vars)
 				if err != nil && strings.Contains(err.Error(), "workflow deployment timed out") {
 					launchFault := false
 					for _, a := range assign {
-						launchFault = launchFault || (target == "DEPLOY" && a != coresim.OK)
+						launchFault = launchFault || (target == "DEPLOY" && a != coresim.OK) // a slow launch is not "running at once"
 					}
 					if !launchFault {
 						deployRace = err.Error()
 					}
 				}
 			} else {
+				polling = phase == target
 				st, err = w.Control(id, opOf[ph])
 			}
 			if phase == target {
 				reached, gotErr, gotSt, tookVT = true, err, st, vrt.VNow()-t0
+				if err == nil {
+					stragglers = notThere(s, m, id, taskDest[target])
+				}
 				vrt.Quiesce("after-target")
 				vrt.Sleep(2 * time.Second) // let the 500 ms error watcher settle
+				if late {
+					vrt.Sleep(160 * time.Second) // ... and the late reply / late TASK_RUNNING arrive
+				}
 				vrt.Quiesce("after-target2")
+				polling = false
 				if id != "" {
 					finalSt, _ = w.EnvState(id)
+				}
+				if err != nil && target == "DEPLOY" {
+					for i := range s.crit {
+						launched := false
+						for _, t := range m.Tasks {
+							launched = launched || taskIndex(s, t) == i
+						}
+						if s.crit[i] && assign[i] != noOffer && !launched {
+							unlaunched = append(unlaunched, fmt.Sprintf("t%d", i))
+						}
+					}
+				}
+				if err != nil && (ph == "DEPLOY") {
+					for eid, est := range w.Envs() {
+						if est != "ERROR" && est != "DONE" {
+							leftover = append(leftover, eid+":"+est)
+						}
+					}
 				}
 				break
 			}
@@ -142,7 +282,7 @@ func scenario(s shape, target string, q, t vrt.Bounds) *vrt.Scenario {
 		}
 		var as []string
 		for _, a := range assign {
-			as = append(as, a.String())
+			as = append(as, oname(a))
 		}
 		vrt.Logf("%s %s assign=%v -> err=%v state=%s final=%s vt=%v", s.name, target, as, gotErr != nil, gotSt, finalSt, tookVT.Round(time.Second))
 	}
@@ -160,26 +300,56 @@ func scenario(s shape, target string, q, t vrt.Bounds) *vrt.Scenario {
 		expectOK := true
 		var critFail []string
 		for i, a := range assign {
-			as = append(as, a.String())
-			if a != coresim.OK && s.crit[i] {
+			as = append(as, oname(a))
+			if !okClass(a) && s.crit[i] {
 				expectOK = false
-				critFail = append(critFail, a.String())
+				critFail = append(critFail, oname(a))
 			}
 		}
 		ctx := fmt.Sprintf("shape=%s target=%s assign=%v err=%v state=%s final=%s", s.name, target, as, gotErr, gotSt, finalSt)
 		nonCritOnly := ""
 		for i, a := range assign {
-			if a != coresim.OK && !s.crit[i] {
-				nonCritOnly = a.String()
+			if !okClass(a) && !s.crit[i] {
+				nonCritOnly = oname(a)
+			}
+		}
+		noOfferOnly := nonCritOnly != ""
+		for i, a := range assign {
+			if !okClass(a) && !(a == noOffer && !s.crit[i]) {
+				noOfferOnly = false
+			}
+		}
+		slow := ""
+		for _, a := range assign {
+			if a == coresim.SlowLaunch || a == coresim.SlowReply {
+				slow = ":" + oname(a)
 			}
 		}
 		if expectOK {
 			if gotErr != nil || gotSt != dest[target] {
-				cl := "transition-failed-though-all-critical-tasks-ok:" + target
+				cl := "transition-failed-though-all-critical-tasks-ok:" + target + slow
 				if nonCritOnly != "" {
-					cl = "non-critical-failure-failed-the-transition:" + target + ":" + nonCritOnly + fmt.Sprintf(":ntasks=%d", len(assign))
+					cl = "non-critical-failure-failed-the-transition:" + target + ":" + nonCritOnly + fmt.Sprintf(":ntasks=%d", len(assign)) + slow
+				}
+				if noOfferOnly && len(unlaunched) > 0 {
+					// not the deployment waiting for a non-critical role: the critical tasks were not even launched
+					cl = "non-critical-task-without-offer-kept-critical-tasks-from-being-launched:" + target
+					ctx += fmt.Sprintf(" never launched: %v", unlaunched)
 				}
 				out = append(out, vrt.Violation{Clause: cl, Detail: ctx})
+			} else {
+				// reported the destination: every critical task must really be there, and the environment must
+				// go on reporting it (a non-critical failure must not surface a moment later either)
+				if len(stragglers) > 0 {
+					out = append(out, vrt.Violation{Clause: "destination-reported-but-critical-task-not-there:" + target, Detail: ctx + fmt.Sprintf(" critical tasks not in %s: %v", taskDest[target], stragglers)})
+				}
+				if finalSt != dest[target] {
+					cl := "destination-not-kept-after-successful-transition:" + target + ":" + finalSt
+					if nonCritOnly != "" {
+						cl += ":after-non-critical-" + nonCritOnly
+					}
+					out = append(out, vrt.Violation{Clause: cl, Detail: ctx})
+				}
 			}
 		} else {
 			if gotErr == nil && gotSt == "ERROR" {
@@ -188,27 +358,274 @@ func scenario(s shape, target string, q, t vrt.Bounds) *vrt.Scenario {
 			} else if gotErr == nil {
 				out = append(out, vrt.Violation{Clause: "success-despite-critical-failure:" + target + ":" + strings.Join(critFail, "+"), Detail: ctx})
 			}
-			if gotSt == dest[target] && target != "STOP" && target != "CONFIGURE2" && target != "CONFIGURE" && target != "DEPLOY" {
+			if gotSt == dest[target] {
 				out = append(out, vrt.Violation{Clause: "destination-reported-despite-critical-failure:" + target, Detail: ctx})
 			}
 			for _, e := range w.EnvEvents[evFrom:] {
-				if e.State == dest[target] && e.Error == "" && (e.Transition == "START_ACTIVITY" && target == "START" || e.Transition == "RESET" && target == "RESET") {
+				if e.State == dest[target] && e.Error == "" {
 					out = append(out, vrt.Violation{Clause: "destination-published-despite-critical-failure:" + target, Detail: ctx + fmt.Sprintf(" event=%+v", e)})
 					break
 				}
 			}
+			if seen[dest[target]] {
+				out = append(out, vrt.Violation{Clause: "destination-observed-despite-critical-failure:" + target, Detail: ctx + fmt.Sprintf(" GetEnvironment reported %s while the request was in progress / settling (states seen: %v)", dest[target], seen)})
+			}
 			if finalSt != "ERROR" && finalSt != "" && finalSt != "DONE" {
 				out = append(out, vrt.Violation{Clause: "not-in-ERROR-after-failed-transition:" + target + ":" + finalSt, Detail: ctx})
+			}
+			if len(leftover) > 0 {
+				sort.Strings(leftover)
+				out = append(out, vrt.Violation{Clause: "environment-listed-healthy-after-failed-creation:" + target, Detail: ctx + fmt.Sprintf(" listed: %v", leftover)})
 			}
 		}
 		return
 	}
-	return &vrt.Scenario{Name: s.name + "-" + target, Prop: "C02", Body: body, Check: check, Quick: q, Thorough: t,
+	name, alphaDoc := s.name+"-"+target, "whole alphabet"
+	if len(s.crit) >= 3 {
+		if full {
+			name += "-full"
+		} else {
+			alphaDoc = "without the slow / late outcomes"
+		}
+	}
+	return &vrt.Scenario{Name: name, Prop: "C02", Body: body, Check: check, Quick: q, Thorough: t,
 		Setup:          coresim.ResetStore,
 		Cfg:            vrt.Config{Preempt: coresim.InterComponent, NoLockPoints: true, FreeSwitchCost: true, Horizon: 30 * time.Minute},
 		DeadlockClause: "request-hangs:" + target, PanicClause: "panic",
 		NonTrivial: func(x *vrt.Exec) bool { return reached },
-		Doc:        fmt.Sprintf("shape %s, outcomes assigned at %s", s.name, target)}
+		Doc:        fmt.Sprintf("shape %s, outcomes assigned at %s (%s)", s.name, target, alphaDoc)}
+}
+
+// history: a failure confined to the non-critical tasks at one transition, then the rest of the environment's
+// life (the statement's "never make a transition fail" is not limited to the transition the failure happens in:
+// the failed non-critical task is still there - in the wrong state, dead, or answering late - when the next
+// transitions command the workflow).
+func history(s shape, q, t vrt.Bounds) *vrt.Scenario {
+	type step struct {
+		name, event, dest, taskDest string
+		op                          pb.ControlEnvironmentRequest_Optype
+	}
+	steps := []step{
+		{"CONFIGURE", "CONFIGURE", "CONFIGURED", "CONFIGURED", 0}, // inside NewEnvironment
+		{"START", "START", "RUNNING", "RUNNING", pb.ControlEnvironmentRequest_START_ACTIVITY},
+		{"STOP", "STOP", "CONFIGURED", "CONFIGURED", pb.ControlEnvironmentRequest_STOP_ACTIVITY},
+		{"RESET", "RESET", "DEPLOYED", "STANDBY", pb.ControlEnvironmentRequest_RESET},
+		{"CONFIGURE2", "CONFIGURE", "CONFIGURED", "CONFIGURED", pb.ControlEnvironmentRequest_CONFIGURE},
+		{"START2", "START", "RUNNING", "RUNNING", pb.ControlEnvironmentRequest_START_ACTIVITY},
+		{"STOP2", "STOP", "CONFIGURED", "CONFIGURED", pb.ControlEnvironmentRequest_STOP_ACTIVITY},
+	}
+	failures := []coresim.Outcome{coresim.ErrSource, coresim.ErrError, coresim.Undeliverable, coresim.Silent, coresim.Dies, coresim.LateReply}
+	type result struct {
+		st         string
+		err        error
+		vt         time.Duration
+		stragglers []string
+		nothing    bool // no task of the environment was alive when the request came: nothing to command
+	}
+	var (
+		at         int
+		assign     []coresim.Outcome
+		res        []result
+		finalSt    string
+		deployRace string
+	)
+	label := func() string {
+		var as []string
+		for i, a := range assign {
+			if s.crit[i] {
+				as = append(as, "-")
+			} else {
+				as = append(as, oname(a))
+			}
+		}
+		return fmt.Sprintf("shape=%s non-critical outcomes at %s: %v", s.name, steps[at].name, as)
+	}
+	return &vrt.Scenario{Name: "after-" + s.name, Prop: "C02", Quick: q, Thorough: t,
+		Doc:            fmt.Sprintf("shape %s: the non-critical tasks fail at one of CONFIGURE/START/STOP/RESET, then every later transition up to a second STOP", s.name),
+		Setup:          coresim.ResetStore,
+		Cfg:            vrt.Config{Preempt: coresim.InterComponent, NoLockPoints: true, FreeSwitchCost: true, Horizon: 60 * time.Minute},
+		DeadlockClause: "request-hangs:after-non-critical-failure", PanicClause: "panic",
+		NonTrivial: func(x *vrt.Exec) bool { return len(res) > at },
+		Body: func() {
+			assign, res, finalSt, deployRace = nil, nil, "", ""
+			at = vrt.ChooseFree(4, "transition at which the non-critical tasks fail")
+			for i := range s.crit {
+				if s.crit[i] {
+					assign = append(assign, coresim.OK)
+				} else {
+					assign = append(assign, failures[vrt.ChooseFree(len(failures), "outcome")])
+				}
+			}
+			cur := -1
+			m := coresim.NewMaster(agents()...)
+			m.Behaviour = func(t *coresim.SimTask, kind string) coresim.Outcome {
+				if cur == at && kind == steps[at].event {
+					if i := taskIndex(s, t); i >= 0 {
+						return assign[i]
+					}
+				}
+				return coresim.OK
+			}
+			w := coresim.NewWorld(m)
+			id := ""
+			for k, sp := range steps {
+				cur = k
+				r := result{nothing: k > 0 && len(m.AliveTasks()) == 0}
+				t0 := vrt.VNow()
+				if k == 0 {
+					id, r.st, r.err = w.Create(wfName(s), nil)
+					if r.err != nil && strings.Contains(r.err.Error(), "workflow deployment timed out") {
+						deployRace = r.err.Error()
+					}
+				} else {
+					r.st, r.err = w.Control(id, sp.op)
+				}
+				r.vt = vrt.VNow() - t0
+				if r.err == nil {
+					r.stragglers = notThere(s, m, id, sp.taskDest)
+				}
+				res = append(res, r)
+				vrt.Logf("%s -> err=%v state=%s vt=%v", sp.name, r.err != nil, r.st, r.vt.Round(time.Second))
+				if r.err != nil || r.st != sp.dest {
+					break
+				}
+				vrt.Quiesce("between-requests")
+			}
+			vrt.Sleep(160 * time.Second) // a late reply of the failed transition arrives at the latest now
+			vrt.Quiesce("settled")
+			if id != "" {
+				finalSt, _ = w.EnvState(id)
+			}
+			vrt.Logf("%s final=%s", label(), finalSt)
+		},
+		Check: func(x *vrt.Exec) (out []vrt.Violation) {
+			if deployRace != "" {
+				return []vrt.Violation{{Clause: "deploy-timed-out-although-every-task-reported-running", Detail: fmt.Sprintf("shape=%s: every launched task was reported TASK_RUNNING by the master at once, yet: %s", s.name, deployRace)}}
+			}
+			for k, r := range res {
+				sp := steps[k]
+				when := "at-the-failure"
+				if k > at {
+					when = "later:" + sp.name
+				} else if k < at {
+					when = "before-any-failure:" + sp.name
+				}
+				ctx := fmt.Sprintf("%s; %s: err=%v state=%s vt=%v\n%s", label(), sp.name, r.err, r.st, r.vt, strings.Join(x.Log, "\n"))
+				if r.err != nil || r.st != sp.dest {
+					out = append(out, vrt.Violation{Clause: "non-critical-failure-failed-a-transition:at=" + steps[at].name + ":" + when, Detail: ctx})
+					return
+				}
+				if len(r.stragglers) > 0 {
+					out = append(out, vrt.Violation{Clause: "destination-reported-but-critical-task-not-there:" + when, Detail: ctx + fmt.Sprintf("\ncritical tasks not in %s: %v", sp.taskDest, r.stragglers)})
+				}
+				if r.nothing && r.vt > time.Second {
+					out = append(out, vrt.Violation{Clause: "nothing-to-command-but-not-at-once:" + sp.name, Detail: ctx})
+				}
+			}
+			if len(res) == len(steps) && finalSt != steps[len(steps)-1].dest {
+				out = append(out, vrt.Violation{Clause: "destination-not-kept-after-successful-transition:after-non-critical-failure:" + finalSt, Detail: label() + "\n" + strings.Join(x.Log, "\n")})
+			}
+			return
+		}}
+}
+
+// pair: two environments (one critical task each, different hosts and detectors) are taken through the same
+// transition at the same time. "Every critical task of ITS workflow": what the other environment's task does
+// must not decide this environment's transition, in either direction.
+func pairScenario(op string, q, t vrt.Bounds) *vrt.Scenario {
+	alpha := []coresim.Outcome{coresim.OK, coresim.ErrSource, coresim.Silent, coresim.SlowReply}
+	wfs := [2]string{"c02-c", "c02-pb"}
+	classes := [2]string{"c02c0", "c02pb0"}
+	var (
+		assign  [2]coresim.Outcome
+		gotSt   [2]string
+		gotErr  [2]error
+		finalSt [2]string
+		reached bool
+		setup   string
+	)
+	return &vrt.Scenario{Name: "pair-" + op, Prop: "C02", Quick: q, Thorough: t,
+		Doc:            "two environments in " + op + " at the same time, every pair of outcomes from {ok, error reply, silent, slow reply}",
+		Setup:          coresim.ResetStore,
+		Cfg:            vrt.Config{Preempt: coresim.InterComponent, NoLockPoints: true, FreeSwitchCost: true, Horizon: 30 * time.Minute},
+		DeadlockClause: "request-hangs:two-environments:" + op, PanicClause: "panic",
+		NonTrivial: func(x *vrt.Exec) bool { return reached },
+		Body: func() {
+			reached, setup = false, ""
+			for k := range assign {
+				assign[k] = alpha[vrt.ChooseFree(len(alpha), "outcome")]
+				gotSt[k], gotErr[k], finalSt[k] = "", nil, ""
+			}
+			armed := false
+			m := coresim.NewMaster(agents()...)
+			m.Behaviour = func(t *coresim.SimTask, kind string) coresim.Outcome {
+				if armed && kind == eventOf[op] {
+					for k := range classes {
+						if t.Class == classes[k] {
+							return assign[k]
+						}
+					}
+				}
+				return coresim.OK
+			}
+			w := coresim.NewWorld(m)
+			var ids [2]string
+			for k := range wfs {
+				id, st, err := w.Create(wfs[k], nil)
+				if err != nil || st != "CONFIGURED" {
+					setup = fmt.Sprintf("creating %s: state=%s err=%v", wfs[k], st, err)
+					vrt.Logf("setup failed: %s", setup)
+					return
+				}
+				ids[k] = id
+			}
+			armed, reached = true, true
+			done := 0
+			for k := range ids {
+				k := k
+				vrt.GoFG(fmt.Sprintf("client%d", k), func() {
+					gotSt[k], gotErr[k] = w.Control(ids[k], opOf[op])
+					done++
+				})
+			}
+			vrt.WaitUntil("both-requests-answered", func() bool { return done == 2 })
+			vrt.Quiesce("after-requests")
+			vrt.Sleep(2 * time.Second)
+			vrt.Quiesce("settled")
+			for k := range ids {
+				finalSt[k], _ = w.EnvState(ids[k])
+			}
+			vrt.Logf("pair %s assign=[%s %s] -> A: err=%v state=%s final=%s | B: err=%v state=%s final=%s", op, oname(assign[0]), oname(assign[1]),
+				gotErr[0] != nil, gotSt[0], finalSt[0], gotErr[1] != nil, gotSt[1], finalSt[1])
+		},
+		Check: func(x *vrt.Exec) (out []vrt.Violation) {
+			if setup != "" {
+				if strings.Contains(setup, "workflow deployment timed out") {
+					return []vrt.Violation{{Clause: "deploy-timed-out-although-every-task-reported-running", Detail: setup}}
+				}
+				return []vrt.Violation{{Clause: "setup-step-failed:" + op, Detail: setup}}
+			}
+			if !reached {
+				return nil
+			}
+			for k := range assign {
+				other := oname(assign[1-k])
+				ctx := fmt.Sprintf("%s: environment %d of 2, own task %s, the other environment's task %s: err=%v state=%s final=%s\n%s", op, k, oname(assign[k]), other, gotErr[k], gotSt[k], finalSt[k], strings.Join(x.Log, "\n"))
+				if okClass(assign[k]) {
+					if gotErr[k] != nil || gotSt[k] != dest[op] || finalSt[k] != dest[op] {
+						out = append(out, vrt.Violation{Clause: "transition-failed-though-own-critical-task-ok:" + op + ":other-environment-" + other, Detail: ctx})
+					}
+				} else {
+					if gotErr[k] == nil || gotSt[k] == dest[op] {
+						out = append(out, vrt.Violation{Clause: "success-despite-critical-failure:" + op + ":" + oname(assign[k]) + ":other-environment-" + other, Detail: ctx})
+					}
+					if finalSt[k] != "ERROR" {
+						out = append(out, vrt.Violation{Clause: "not-in-ERROR-after-failed-transition:" + op + ":" + finalSt[k] + ":other-environment-" + other, Detail: ctx})
+					}
+				}
+			}
+			return
+		}}
 }
 
 // zero tasks: a workflow consisting of one (non-critical) integration call only.
@@ -269,12 +686,35 @@ func main() {
 	for _, s := range shapes {
 		specs = append(specs, specOf(s))
 	}
+	// second environment of the pair scenarios: one critical task on hostB (its own detector)
+	specs = append(specs, coresim.WorkflowSpec{Name: "c02-pb", Hosts: []string{"hostB"}, Tasks: []coresim.TaskSpec{{Name: "t0", Class: "c02pb0", Mode: "direct", Critical: true, Host: "hostB"}}})
 	coresim.GlobalSetup(specs...)
 	var scs []*vrt.Scenario
-	for _, s := range shapes {
+	for k, s := range shapes {
 		for _, tg := range []string{"DEPLOY", "CONFIGURE", "START", "STOP", "RESET", "CONFIGURE2"} {
-			scs = append(scs, scenario(s, tg, vrt.Bounds{Dev: 0, Seconds: 100}, vrt.Bounds{Dev: 1, Seconds: 60}))
+			if len(s.crit) >= 3 {
+				scs = append(scs, scenario(s, tg, false, vrt.Bounds{Dev: 0, Seconds: 100}, vrt.Bounds{Dev: 1, Seconds: 60}))
+			}
+			// thorough budget: the shapes added by the gap analysis get 20 s each (a capped run says exhaustive=false),
+			// which keeps the thorough tier of the property at about half an hour
+			tb := vrt.Bounds{Dev: 1, Seconds: 60}
+			if k >= 7 {
+				tb.Seconds = 20
+			}
+			scs = append(scs, scenario(s, tg, true, vrt.Bounds{Dev: 0, Seconds: 100}, tb))
 		}
+	}
+	for _, s := range shapes {
+		nonCritical := false
+		for _, c := range s.crit {
+			nonCritical = nonCritical || !c
+		}
+		if nonCritical {
+			scs = append(scs, history(s, vrt.Bounds{Dev: 0, Seconds: 100}, vrt.Bounds{Dev: 1, Seconds: 45}))
+		}
+	}
+	for _, op := range []string{"START", "RESET"} {
+		scs = append(scs, pairScenario(op, vrt.Bounds{Dev: 0, Seconds: 100}, vrt.Bounds{Dev: 1, Seconds: 120}))
 	}
 	scs = append(scs, emptyScenario())
 	vrt.Main(scs)
